@@ -448,10 +448,16 @@ class Representation:
                                           precomputed=precomputed,
                                           edge_words=edge_words)
 
+        # the result may be an entry of the precomputed dictionary:
+        # return copies, so that whatever the caller does with them
+        # does not change the values later calls are computed from
         if with_words:
             matrix_array, words = result
+            words = list(words)
         else:
             matrix_array = result
+
+        matrix_array = np.array(matrix_array)
 
         wrapped_matrices = self.__class__.array_wrap_func(matrix_array)
 
